@@ -27,6 +27,25 @@ theorem allTSpecs_eq (pkg : Pkg) (h : ∀ f ∈ pkg, noLocals f.decls = true) :
     rw [declsTSpecs_eq_top _ (h f (by simp)), ih (fun g hg => h g (by simp [hg]))]
     simp [Function.comp_def]
 
+theorem allTop_eq (pkg : Pkg) (h : ∀ f ∈ pkg, noLocals f.decls = true) : allTop pkg = allTSpecs pkg := by
+  induction pkg with
+  | nil => rfl
+  | cons f r ih =>
+    simp only [allTop, allTSpecs, File.tspecs]
+    rw [declsTSpecs_eq_top _ (h f (by simp)), ih (fun g hg => h g (by simp [hg]))]
+
+theorem namedTop_eq (pkg : Pkg) (h : ∀ f ∈ pkg, noLocals f.decls = true) (n : String) : namedTop pkg n = namedSpecs pkg n := by
+  unfold namedTop namedSpecs
+  rw [allTop_eq pkg h]
+
+theorem testedTop_eq (file : String) (pkg : Pkg) (h : ∀ f ∈ pkg, noLocals f.decls = true) :
+    testedTop file pkg = testedSpecs file pkg := by
+  induction pkg with
+  | nil => rfl
+  | cons f r ih =>
+    simp only [testedTop, testedSpecs, File.tspecs]
+    rw [declsTSpecs_eq_top _ (h f (by simp)), ih (fun g hg => h g (by simp [hg]))]
+
 /-- TestFile over the declarations of the package -/
 def inFileB (file : String) (ft : String × TSpec) : Bool := file == "" || ft.1 == file
 
@@ -256,12 +275,12 @@ theorem under_of_goConsts {pkg : Pkg} (v : ValidFacts pkg) {n : String} (h : goC
 
 theorem makeData_new_decl {pkg : Pkg} (v : ValidFacts pkg) {f : String} {t : TSpec} (h : (f, t) ∈ declared pkg) (sp : Bool) :
     makeData .new pkg sp t.name = if t.shape == .struct && !underscore t.name then .ok true else .error .fatal := by
-  simp only [makeData, namedSpecs_of_mem v h]
+  simp only [makeData, namedTop_eq pkg v.noLoc, namedSpecs_of_mem v h]
   by_cases hs : t.shape = .struct <;> by_cases hu : underscore t.name = true <;> simp [hs, hu, pure, Except.pure, throw, throwThe, MonadExceptOf.throw]
 
 theorem makeData_new_none {pkg : Pkg} (v : ValidFacts pkg) {n : String} (h : findDecl pkg n = none) (sp : Bool) :
     makeData .new pkg sp n = .error .fatal := by
-  simp [makeData, namedSpecs_of_none v h, throw, throwThe, MonadExceptOf.throw]
+  simp [makeData, namedTop_eq pkg v.noLoc, namedSpecs_of_none v h, throw, throwThe, MonadExceptOf.throw]
 
 theorem makeData_map_decl {pkg : Pkg} (v : ValidFacts pkg) {f : String} {t : TSpec} (h : (f, t) ∈ declared pkg) (sp : Bool) :
     makeData .map pkg sp t.name =
@@ -479,7 +498,7 @@ theorem listed_produced (cmd : Cmd) (pkg : Pkg) (v : ValidFacts pkg) (file : Str
       keep cmd pkg false L = .ok (((declared pkg).filter (fun ft => inFileB file ft && eligible cmd pkg ft.2)).map nameOf) := by
   cases cmd with
   | new =>
-    refine ⟨_, by simp only [listTypes, testedSpecs_eq file pkg v.noLoc, listNew_eq]; rfl, ?_⟩
+    refine ⟨_, by simp only [listTypes, testedTop_eq file pkg v.noLoc, testedSpecs_eq file pkg v.noLoc, listNew_eq]; rfl, ?_⟩
     apply produced_of .new pkg v file (fun t => !underscore t.name && t.shape == .struct) (fun _ => true)
     · intro ft hft hl
       obtain ⟨f, t⟩ := ft
